@@ -231,6 +231,29 @@ func seqD(v ssa.Value, depth int, inprog map[ssa.Value]bool) ([]SeqElem, bool) {
 			}
 			return append(append([]SeqElem(nil), base...), tail...), true
 		}
+		// slices.Sorted(maps.Keys(m)): every key of m, once
+		if m := sortedKeysOf(x); m != nil {
+			return []SeqElem{{Kind: "star", Sub: []SeqElem{{Kind: "elem", D: "rangekey(" + desc(m) + ")"}}}}, true
+		}
+		// slices.Concat(a, b, c): the concatenation of its arguments' sequences
+		if n := calleeName(x); n == "slices.Concat" && len(x.Call.Args) == 1 {
+			parts, ok := seqD(x.Call.Args[0], depth+1, inprog)
+			if !ok {
+				return nil, false
+			}
+			var out []SeqElem
+			for _, p := range parts {
+				if p.Kind != "elem" || p.V == nil {
+					return nil, false
+				}
+				s, ok := seqD(p.V, depth+1, inprog)
+				if !ok {
+					return nil, false
+				}
+				out = append(out, s...)
+			}
+			return out, true
+		}
 		// a module-internal helper that builds and returns the slice: evaluate its returns in its own
 		// context, with its parameters described as this call's arguments
 		if g := staticCallee(x); g != nil && inModuleFn(g) && !isBigWrapperFn(g) && g.Blocks != nil && g.Signature.Results().Len() == 1 && !inprog[x] {
